@@ -36,4 +36,38 @@ CHECKS = {
              "local names are not aliases; Python slice-length semantics as "
              "axiomatised in the checker. Known finding K1 (seek whence 2 "
              "uses length-n) is listed in known_findings.json."),
+    "C15": dict(
+        technique="bit-provenance analysis of struct.pack/unpack expressions "
+                  "against a documented layout table + linear-constraint "
+                  "abstract interpretation of the SCP argument decoder",
+        text="For every field value: derives which bits of which packet "
+             "field each packed header byte carries and compares with the "
+             "documented SDP header (R1); derives the decoder's slot->field "
+             "map and bit extractions and requires the exact inverse, payload "
+             "offset = format size (R2); SCP encoder order cmd_rc, seq, "
+             "present args, payload; decoder reads arg k at offset 4(k-1) "
+             "iff n_args >= k and the body holds 4k bytes, never beyond the "
+             "data (R3); cross-module constants agree (R4). The suite pins a "
+             "few byte strings (all ports 7, cpu 15); this covers every "
+             "field value and length.",
+        note="Not decided: values wider than a field are the caller's "
+             "responsibility. Trusted: the SDP_LAYOUT table transcribed in "
+             "rules/C15.py; struct standard-size semantics."),
+    "C19": dict(
+        technique="constant folding of module tables from the AST, validated "
+                  "exhaustively against an independent tile description; "
+                  "symbolic normal forms of the indexing functions",
+        text="Folds SPINN5_ETH_OFFSET (144 cells) and SPINN5_FPGA_LINKS (48 "
+             "entries) and checks every cell/entry against an independent "
+             "description of the 48-chip SpiNN-5 tile and the three-board "
+             "12x12 tiling (exhaustive). Checks by normal form that the "
+             "functions index [ (y-root_y)%12 ][ (x-root_x)%12 ], wrap "
+             "results modulo the machine size, negate the offset for the "
+             "on-board coordinate, iterate the table's own Ethernet triple "
+             "over range(0, size, 12) cells with the out-of-machine filter, "
+             "key the FPGA table by the on-board coordinate, and scale "
+             "triads by 12 behind the %3 guard.",
+        note="Not decided: standard_system_dimensions' squarest-factor "
+             "search. Trusted: the tile description at the top of "
+             "rules/C19.py."),
 }
